@@ -251,7 +251,7 @@ def minimise(plan, violation, budget_runs=24, wall=90.0):
     stats["decisions_before"] = len(result.get("consulted") or {})
     # 1. fewer workers
     nets = plan["scenario"]["nets"].split()
-    changed = True
+    changed = plan["scenario"].get("tool") != "manu"   # the worker set of a command line is part of its argument list
     while changed and len(nets) > 1:
         changed = False
         for i in range(len(nets)):
